@@ -996,6 +996,10 @@ def c04_history(model, meta):
         _pslinux.BOOT_TIME = None
         shutil.rmtree(d, ignore_errors=True)
     tag = None
+    if meta.get("prop") == "C02":
+        # C02 only speaks about is_running() answers along the history
+        problems = [p for p in problems if "is_running()" in p]
+        known = []
     if not problems and known:
         problems = known
         tag = "reused-pid-skipped-one-pass"
